@@ -463,6 +463,11 @@ func (x *Exec) appendBuiltin(f *Frame, st *State, info *CallInfo) Val {
 		case *GoSlice:
 			for _, e := range a.Elems {
 				et, ok := e.(*Term)
+				if !ok && rt.Fields[1].Sort.Elem == SBytes {
+					if bt := x.asBytes(st, e); bt != nil {
+						et, ok = bt, true
+					}
+				}
 				if !ok {
 					x.errorf("append of non-term element")
 					return cur
